@@ -50,6 +50,22 @@ pub struct SupplyTrace {
     /// the verifier's TZ environment variable (a POSIX zone string; None = "UTC0")
     #[serde(default)]
     pub tz: Option<String>,
+    /// the verifications run on the worker's long-lived verifier thread (thread-local state of the library
+    /// carries over from one call to the next) instead of a fresh thread each
+    #[serde(default)]
+    pub same_thread: bool,
+    /// the link directory was assembled from a content store: about half of its link files are symbolic
+    /// links to regular files kept elsewhere (the seed picks which)
+    #[serde(default)]
+    pub via_symlink: Option<u64>,
+    /// entries of the root layout's signature list repeated in memory after the caller parsed it (the
+    /// layout object handed to the verifier did not come out of the parser as it is)
+    #[serde(default)]
+    pub mem_sigdup: Vec<usize>,
+    /// the link directory is updated in place: files that exist already are rewritten (same inode), not
+    /// deleted and created anew; what the world no longer has is removed
+    #[serde(default)]
+    pub in_place: bool,
 }
 
 pub struct SupplyOutcome {
@@ -102,7 +118,12 @@ pub fn run_supply(t: &SupplyTrace, scratch: &Scratch) -> SupplyOutcome {
     let mut no_layout = None;
     let mut read_fired: Vec<String> = vec![];
     for (rep, hs) in t.hash_seeds.iter().enumerate() {
-        scratch.reset_dirs();
+        if t.in_place && t.link_dir_style != 2 {
+            let keep: std::collections::BTreeSet<String> = stored.iter().filter(|s| s.special.is_none() && !s.path.starts_with('@')).map(|s| s.path.clone()).collect();
+            scratch.reset_in_place(&keep);
+        } else {
+            scratch.reset_dirs();
+        }
         write_actor_scripts(&t.root, &scratch.side());
         // the working directory's entries are created in an order drawn from the repetition's arrival
         // seed (directory enumeration order on tmpfs follows creation order)
@@ -138,7 +159,7 @@ pub fn run_supply(t: &SupplyTrace, scratch: &Scratch) -> SupplyOutcome {
             (scratch.links(), scratch.links())
         };
         let decoy = scratch.links();
-        let m = materialise(&stored, &real_links, arrival, fired.clone(), t.fixed_mtime, if t.link_dir_style == 2 { Some(decoy.as_path()) } else { None }).expect("materialise");
+        let m = materialise(&stored, &real_links, arrival, fired.clone(), t.fixed_mtime, if t.link_dir_style == 2 { Some(decoy.as_path()) } else { None }, t.via_symlink).expect("materialise");
         let links = passed;
         let work = scratch.work();
         let armed = match t.read_faults {
@@ -158,6 +179,8 @@ pub fn run_supply(t: &SupplyTrace, scratch: &Scratch) -> SupplyOutcome {
             clock: &t.clock,
             hash_seed: *hs,
             step_name: t.step_name.clone(),
+            same_thread: t.same_thread,
+            mem_sigdup: t.mem_sigdup.clone(),
         };
         match exec::verify(&call) {
             CallResult::NoLayout(e) => {
